@@ -29,7 +29,7 @@ def read_xwaves(filename):
         coords={"time": time, attrs.FREQNAME: freq, attrs.DIRNAME: dir},
         dims=("time", attrs.FREQNAME, attrs.DIRNAME),
         name="efth",
-    ).to_dataset()
+    ).to_dataset().sortby("time")
 
     # Assign metadata
     header = data["__header__"]
